@@ -95,3 +95,170 @@ Proof.
 Qed.
 
 (* TREES: appended below *)
+
+(* AVL trees, both index widths.  Each theorem is closed by [exact] of a
+   lemma proved in Avl/Quiet.v; theorems about a removal take the link for
+   [remove] (Avl/LinkRemove.v) as the explicit premise
+   [remove_spec_statement bits]. *)
+From Stevia Require Import Avl.Impl Avl.Tree Avl.Spec Avl.Format Avl.Inv Avl.LinkInsert Avl.LinkSteps
+  Avl.Master Avl.Clauses Avl.Capacity Avl.Quiet.
+
+(* which (operation, answer) pairs are "did nothing": a refused insert, a
+   remove or a get_mut of an absent key, get_mut without a write, every
+   query, and re-opening the buffer *)
+Theorem C09_avl_quiet_def : forall o x,
+  quiet o x <->
+  match o, x with
+  | OInsert _ _, RSlot None => True
+  | ORemove _, RVal None => True
+  | OGetMut _ _, RVal None => True
+  | OGetMut0 _, _ => True
+  | OGet _, _ | OContains _, _ | OLowest, _ | OLen, _ | OIsEmpty, _ | OIsFull, _
+  | OCapacity, _ | OOpenRo, _ | OOpenMut, _ => True
+  | _, _ => False
+  end.
+Proof. exact (fun o x => iff_refl _). Qed.
+Print Assumptions C09_avl_quiet_def.
+
+Theorem C09_avl_defs :
+  (forall s, settled s <-> N.of_nat (length (nodes s)) <= cap s) /\
+  (forall o, ro_op o <->
+     match o with
+     | OGet _ | OContains _ | OLowest | OLen | OIsEmpty | OIsFull | OCapacity | OOpenRo => True
+     | _ => False
+     end) /\
+  (forall o, not_remove o <-> match o with ORemove _ => False | _ => True end) /\
+  (forall o, no_ext o <-> match o with OExt _ => False | _ => True end).
+Proof. exact (conj (fun _ => iff_refl _) (conj (fun _ => iff_refl _) (conj (fun _ => iff_refl _) (fun _ => iff_refl _)))). Qed.
+Print Assumptions C09_avl_defs.
+
+(* a refused insert hands back the very same state; it is refused exactly
+   for a present key or a full tree *)
+Theorem C09_avl_insert_refused_same : forall bits s t fr term k v s' log,
+  Inv bits s t fr term -> okbits bits ->
+  insert bits s k v = Ok (s', None, log) -> s' = s.
+Proof. exact insert_refused_same. Qed.
+Print Assumptions C09_avl_insert_refused_same.
+
+Theorem C09_avl_insert_refused_iff : forall bits s t fr term k v,
+  Inv bits s t fr term -> okbits bits ->
+  (t_find t k <> None \/ is_full s = true <->
+   insert bits s k v = Ok (s, None, t_log t k)).
+Proof. exact insert_refused_iff. Qed.
+Print Assumptions C09_avl_insert_refused_iff.
+
+(* removing an absent key *)
+Theorem C09_avl_remove_absent_same : forall bits, remove_spec_statement bits ->
+  forall s t fr term k s' log,
+  Inv bits s t fr term -> okbits bits ->
+  remove bits s k = Ok (s', None, log) -> s' = s.
+Proof. exact remove_absent_same. Qed.
+Print Assumptions C09_avl_remove_absent_same.
+
+Theorem C09_avl_remove_absent_iff : forall bits, remove_spec_statement bits ->
+  forall s t fr term k,
+  Inv bits s t fr term -> okbits bits ->
+  (t_find t k = None <-> remove bits s k = Ok (s, None, t_log t k)).
+Proof. exact remove_absent_iff. Qed.
+Print Assumptions C09_avl_remove_absent_iff.
+
+(* get_mut of an absent key *)
+Theorem C09_avl_get_mut_absent_same : forall bits s t fr term k v' s' log,
+  Inv bits s t fr term -> get_mut_set s k v' = Ok (s', None, log) -> s' = s.
+Proof. exact get_mut_absent_same. Qed.
+Print Assumptions C09_avl_get_mut_absent_same.
+
+(* the queries: no invariant needed *)
+Theorem C09_avl_query_same : forall bits s o s' x log,
+  ro_op o -> step_c bits s o = Ok (s', x, log) -> s' = s.
+Proof. exact ro_step_same. Qed.
+Print Assumptions C09_avl_query_same.
+
+(* every quiet step, from every state of the invariant with no growth
+   pending: the very same state, hence the very same bytes in every layout *)
+Theorem C09_avl_refused_unchanged : forall bits, remove_spec_statement bits ->
+  forall s t fr term o s' x log,
+  Inv bits s t fr term -> okbits bits -> settled s ->
+  step_c bits s o = Ok (s', x, log) -> quiet o x -> s' = s.
+Proof. exact quiet_step_same. Qed.
+Print Assumptions C09_avl_refused_unchanged.
+
+Theorem C09_avl_refused_bytes : forall bits, remove_spec_statement bits ->
+  forall wb lay s t fr term o s' x log,
+  Inv bits s t fr term -> okbits bits -> settled s ->
+  step_c bits s o = Ok (s', x, log) -> quiet o x ->
+  encode wb lay s' = encode wb lay s.
+Proof. exact quiet_step_bytes. Qed.
+Print Assumptions C09_avl_refused_bytes.
+
+(* the same for every operation but remove, with no premise *)
+Theorem C09_avl_refused_unchanged_noremove : forall bits s t fr term o s' x log,
+  Inv bits s t fr term -> okbits bits -> settled s -> not_remove o ->
+  step_c bits s o = Ok (s', x, log) -> quiet o x -> s' = s.
+Proof. exact quiet_step_same_noremove. Qed.
+Print Assumptions C09_avl_refused_unchanged_noremove.
+
+Theorem C09_avl_refused_bytes_noremove : forall bits wb lay s t fr term o s' x log,
+  Inv bits s t fr term -> okbits bits -> settled s -> not_remove o ->
+  step_c bits s o = Ok (s', x, log) -> quiet o x ->
+  encode wb lay s' = encode wb lay s.
+Proof. exact quiet_step_bytes_noremove. Qed.
+Print Assumptions C09_avl_refused_bytes_noremove.
+
+(* in every state reachable on a buffer of fixed size *)
+Theorem C09_avl_refused_unchanged_reachable : forall bits, remove_spec_statement bits ->
+  forall capacity ops s o s' x log,
+  okbits bits -> capacity < 2 ^ bits -> (bits <> 8 -> capacity + 1 < 2 ^ bits) ->
+  Forall no_ext ops -> final_c bits (init_c capacity capacity) ops = Ok s ->
+  step_c bits s o = Ok (s', x, log) -> quiet o x -> s' = s.
+Proof. exact quiet_step_same_reachable. Qed.
+Print Assumptions C09_avl_refused_unchanged_reachable.
+
+(* non-vacuity: a tree with a recycled slot (a rotation and a removal
+   behind it); a duplicate insert, an absent remove, an absent get_mut and
+   every query answer and hand back the very same state; after one more
+   insertion the tree is full and refuses a fresh key; both widths *)
+Example C09_avl_example :
+  let h0 := [OInsert 50 500; OInsert 30 300; OInsert 70 700; OInsert 20 200; ORemove 30]%Z in
+  let qs := [OInsert 50 999; ORemove 30; OGetMut 31 5; OGetMut0 70; OGet 20; OContains 60; OLowest;
+             OLen; OIsEmpty; OIsFull; OCapacity; OOpenRo; OOpenMut]%Z in
+  (exists s, final_c 8 (init_c 4 4) h0 = Ok s /\ size s = 3 /\ flh s = 2 /\ seq s = 5 /\
+     Forall (fun o => exists x log, step_c 8 s o = Ok (s, x, log) /\ quiet o x) qs /\
+     exists f, final_c 8 s [OInsert 60 600%Z] = Ok f /\ is_full f = true /\
+       exists log, step_c 8 f (OInsert 80 800%Z) = Ok (f, RSlot None, log)) /\
+  (exists s, final_c 32 (init_c 4 4) h0 = Ok s /\
+     Forall (fun o => exists x log, step_c 32 s o = Ok (s, x, log) /\ quiet o x) qs).
+Proof.
+  cbv zeta. split.
+  - eexists. split; [vm_compute; reflexivity|]. split; [reflexivity|]. split; [reflexivity|].
+    split; [reflexivity|]. split.
+    + repeat constructor; eexists; eexists; (split; [vm_compute; reflexivity|exact I]).
+    + eexists. split; [vm_compute; reflexivity|]. split; [reflexivity|].
+      eexists. vm_compute. reflexivity.
+  - eexists. split; [vm_compute; reflexivity|].
+    repeat constructor; eexists; eexists; (split; [vm_compute; reflexivity|exact I]).
+Qed.
+
+(* the hypotheses of the theorems are satisfiable: a full tree (4 of 4) with
+   no growth pending, which refuses a fresh key and a duplicate *)
+Example C09_avl_example_inv :
+  exists s t fr term,
+    final_c 8 (init_c 4 4) [OInsert 50 500; OInsert 30 300; OInsert 40 400; OInsert 60 600]%Z = Ok s /\
+    Inv 8 s t fr term /\ okbits 8 /\ settled s /\ is_full s = true /\
+    inorder t = [(30, 300); (40, 400); (50, 500); (60, 600)]%Z /\
+    (exists log, step_c 8 s (OInsert 70 700%Z) = Ok (s, RSlot None, log)) /\
+    (exists log, step_c 8 s (OInsert 40 444%Z) = Ok (s, RSlot None, log)).
+Proof.
+  destruct (inv_init 8 4) as [Hi Ha]; [reflexivity|congruence|].
+  destruct (final_inv_noremove 8 [OInsert 50 500; OInsert 30 300; OInsert 40 400; OInsert 60 600]%Z
+              (init_c 4 4) E [] 1 Hi (or_introl eq_refl) (init_sizecond 8 4))
+    as (s & t & fr & term & Hf & H & Hsc & Habs).
+  - repeat constructor.
+  - apply growth_ok_weak, growth_ok_no_ext. repeat constructor.
+  - exists s, t, fr, term. split; [exact Hf|]. split; [exact H|]. split; [left; reflexivity|].
+    assert (Hio : inorder t = [(30, 300); (40, 400); (50, 500); (60, 600)]%Z).
+    { change (inorder t) with (sents (abs_of s t)). rewrite Habs, Ha. vm_compute. reflexivity. }
+    vm_compute in Hf. injection Hf as <-.
+    split; [vm_compute; discriminate|]. split; [reflexivity|]. split; [exact Hio|].
+    split; eexists; vm_compute; reflexivity.
+Qed.
